@@ -235,7 +235,7 @@ func webURL(hole, k int) string {
 func VerifC17IdemWeb() {
 	exp := []url.Parser{GoogleSafeBrowsing, Semantic}
 	p := exp[vnd.Pick(2)]
-	in := webURL(vnd.Pick(7), vnd.Param("C17.KTokens", 1, 2))
+	in := webURL(vnd.Pick(7), vnd.Param("C17.KTokens", 1, 1))
 	vnd.Observe("input", in)
 	msg, ok := verifCheckIdempotent(p, in)
 	// (a URL the profile rejects has no canonical string: the claim is vacuous for it; e.g. a host
